@@ -301,6 +301,62 @@ def op_lev(a, b):
     return L("lev", hx(a), hx(b), expect=f"{ref_lev(a, b, False)} {ref_lev(a, b, True)}")
 
 
+def al_lines(rng, buf):
+    """ops whose view arguments are slices of ONE buffer (needle inside / overlapping / equal to the subject);
+    expectations from the same direct definitions applied to the sliced bytes"""
+    n = len(buf)
+
+    def sl():
+        o = rng.randrange(n + 1)
+        return o, rng.randrange(n - o + 1)
+
+    def tk(ol):
+        return f"{ol[0]}:{ol[1]}"
+
+    def by(ol):
+        return buf[ol[0]:ol[0] + ol[1]]
+    a, b, c = sl(), sl(), sl()
+    if rng.random() < 0.4:
+        b = (a[0], rng.randrange(a[1] + 1))                       # same start, shorter or equal
+    elif rng.random() < 0.3:
+        b = (a[0] + a[1] - min(a[1], b[1]), min(a[1], b[1]))       # tail of the subject
+    A, Bv, C = by(a), by(b), by(c)
+    out = []
+    k = rng.randrange(9)
+    B = hx(buf)
+    if k == 0:
+        bits = [A.startswith(Bv), A.endswith(Bv), A.lower().startswith(Bv.lower()), A.lower().endswith(Bv.lower())]
+        out.append(L("al", "sw", B, tk(a), tk(b), expect="".join("1" if x else "0" for x in bits)))
+    elif k == 1:
+        out.append(L("al", "contains", B, tk(a), tk(b), expect="1" if Bv in A else "0"))
+    elif k == 2:
+        x, y = A.lower(), Bv.lower()
+        out.append(L("al", "icmp", B, tk(a), tk(b),
+                     expect=f"c={sgn(x, y)} e={'1' if x == y else '0'} l={'1' if x < y else '0'}"))
+    elif k == 3 and len(Bv):
+        allv = rng.random() < 0.5
+        out.append(L("al", "repa" if allv else "repf", B, tk(a), tk(b), tk(c),
+                     expect=hx(A.replace(Bv, C) if allv else A.replace(Bv, C, 1))))
+    elif k == 4:
+        r = A.translate(None, Bv)
+        out.append(L("al", "erase", B, tk(a), tk(b), expect=hx(r)))
+    elif k == 5:
+        kind = rng.choice(["trim", "triml", "trimr"])
+        r = strip_def(A, Bv, kind in ("trim", "triml"), kind in ("trim", "trimr"))
+        out.append(L("al", kind, B, tk(a), tk(b), expect=hx(r) + "," + hx(r)))
+    elif k == 6:
+        lim = rlimit(rng)
+        out.append(L("al", "splits", B, tk(b), tk(a), num(lim), expect=hxv(ref_split(Bv, A, lim))))
+    elif k == 7:
+        out.append(L("al", "lev", B, tk(a), tk(b), expect=f"{ref_lev(A, Bv, False)} {ref_lev(A, Bv, True)}"))
+    else:
+        # the whole buffer as the subject, a prefix of it as the other argument
+        w, pre = (0, n), (0, rng.randrange(n + 1))
+        bits = [True, buf.endswith(by(pre)), True, buf.lower().endswith(by(pre).lower())]
+        out.append(L("al", "sw", B, tk(w), tk(pre), expect="".join("1" if x else "0" for x in bits)))
+    return out
+
+
 # ------------------------------------------------------------------------------ generators
 ALPHAS = [
     b"ab",                               # heavy repetition / overlapping needles
@@ -329,8 +385,11 @@ def gen_case(rng, cid, nops):
     nontriv = False
     for _ in range(nops):
         alpha = rng.choice(ALPHAS)
-        k = rng.randrange(24)
-        if k == 0:
+        k = rng.randrange(27)
+        if k >= 24:
+            buf = rbytes(rng, alpha[:3] if rng.random() < 0.7 else alpha, 8) or bytes([alpha[0]])
+            lines += al_lines(rng, buf)
+        elif k == 0:
             d = rbytes(rng, bytes(range(256)), rng.choice([0, 1, 2, 3, 4, 5, 6, 7, 12, 13, 14, 30, 49]))
             lines.append(op_b64e(d, rng.choice([0, 0, 4, 8, 12, 16, 76])))
         elif k == 1:
@@ -508,6 +567,25 @@ def exhaustive_small(tier):
         for b in strs:
             lines.append(op_icmp(a, b))
             lines.append(op_sw(a, b))
+    cs.append(lines)
+    lines = ["case xs-alias"]
+    for lb in range(1, 4 if tier == "quick" else 5):
+        for t in itertools.product(b"aB", repeat=lb):
+            buf = bytes(t)
+            views = [(o, l) for o in range(lb + 1) for l in range(lb - o + 1)]
+            for a in views:
+                for b in views:
+                    A, Bv = buf[a[0]:a[0] + a[1]], buf[b[0]:b[0] + b[1]]
+                    ta, tb = f"{a[0]}:{a[1]}", f"{b[0]}:{b[1]}"
+                    bits = [A.startswith(Bv), A.endswith(Bv), A.lower().startswith(Bv.lower()), A.lower().endswith(Bv.lower())]
+                    lines.append(L("al", "sw", hx(buf), ta, tb, expect="".join("1" if x else "0" for x in bits)))
+                    lines.append(L("al", "contains", hx(buf), ta, tb, expect="1" if Bv in A else "0"))
+                    x, y = A.lower(), Bv.lower()
+                    lines.append(L("al", "icmp", hx(buf), ta, tb,
+                                   expect=f"c={sgn(x, y)} e={'1' if x == y else '0'} l={'1' if x < y else '0'}"))
+                    if len(Bv):
+                        lines.append(L("al", "repa", hx(buf), ta, tb, ta, expect=hx(A.replace(Bv, A))))
+                        lines.append(L("al", "repf", hx(buf), ta, tb, tb, expect=hx(A)))
     cs.append(lines)
     lines = ["case xs-lev"]
     strs = [bytes(t) for l in range(4 if tier == "quick" else 5) for t in itertools.product(b"aB", repeat=l)]
